@@ -40,6 +40,11 @@ theorem fact_add_deletes_previous :
 theorem fact_set_timestamp_unconditional :
     Facts.C16.setTimestampStmts = ["service.ID = serviceID", "service.LastLamportTimestamp = timestamp", "service.Seed = seed"] := rfl
 
+/-- `newSQLStore` (every `Module.Start`) only creates MISSING service records (`FirstOrCreate`): seed and timestamp of a
+    list survive a restart of the node, which is why `restartServer` is the identity in the model -/
+theorem fact_start_keeps_service_records :
+    Facts.C16.newStoreDBCalls = ["db.FirstOrCreate(&currentList, \"id = ?\", definition.ID)"] := rfl
+
 /-- expiry comparisons: prune removes `exp < now`, search hides `exp <= now`, only validated rows are searched -/
 theorem fact_expiry_comparisons :
     Facts.C16.pruneConditions = ["presentation_expiration < ?"] ∧
@@ -64,16 +69,19 @@ theorem fact_service_writers_locked :
     `removeRevoked` only `continue` -/
 theorem fact_loops_visit_everything :
     Facts.C16.loopJumps = ["validateRegistration:return errCredentialWithoutID",
-      "validateRegistration:return errPresentationValidityExceedsCredentials", "validateAudience:return nil",
+      "validateRegistration:return errPresentationValidityExceedsCredentials",
+      "validateRegistration:return errPresentationDoesNotFulfillDefinition", "validateAudience:return nil",
       "validate:continue", "validate:continue", "validate:continue", "removeRevoked:continue", "removeRevoked:continue"] := rfl
 
-/-- comparisons are exact: audience by `==`, DID method by `slices.Contains`, credential expiry by `After`, PEX by count -/
+/-- comparisons are exact: audience by `==`, DID method by `slices.Contains`, credential expiry by `After`; "all and only":
+    every presented credential must be among the credentials `Match` used (fix 64fe968; `Match` returns a credential once
+    per input descriptor it fulfils, so equal counts proved nothing) -/
 theorem fact_comparisons_exact :
     Facts.C16.comparisons = ["aud: audienceID == service.ID",
       "method: len(definition.DIDMethods) > 0 && !slices.Contains(definition.DIDMethods, credentialSubjectID.Method)",
       "registration: cred.ID == nil",
       "registration: cred.ExpirationDate != nil && expiration.After(*cred.ExpirationDate)", "registration: err != nil",
-      "registration: len(creds) != len(presentation.VerifiableCredential)"] := rfl
+      "registration: !containsCredential(creds, presented)"] := rfl
 
 /-- `storePresentation` checks `credential.ID` before it hands the credential to the credential store, which dereferences
     it (fix e361284): the model's `Store.add` returns `cred-no-id` there and has no panic site for it -/
@@ -390,6 +398,17 @@ theorem overlapping_poll_across_wipe_diverges :
        .dpollStart, .pollA, .pollB id, .dpollFinish 0 id]
     let w2 := poll factCfg exDef (poll factCfg exDef w id) id
     ("b", "v2") ∈ w2.S.liveKeys w2.t ∧ ("b", "v2") ∉ w2.C.liveKeys w2.t ∧ w2.C.seed = w2.S.seed ∧ w2.C.lastTs = w2.S.lastTs := by decide
+
+/-! ### restarts -/
+
+/-- a restart of the serving node changes nothing that is persistent (list, seed, timestamp, replica); a restart of the client
+    node only drops polls in progress. Both are admissible events of `Reach`, so every replica theorem holds across restarts:
+    timestamps stay strictly increasing and the seed stays the same. -/
+theorem restart_is_identity (cfg : Cfg) (d : Def) (w : World) :
+    (step cfg d w .restartServer).1 = w ∧
+    (step cfg d w .restartClient).1.S = w.S ∧ (step cfg d w .restartClient).1.C = w.C ∧ (step cfg d w .restartClient).1.t = w.t ∧
+    (step cfg d w .restartClient).1.pending = none ∧ EvOK (fun _ => True) d w .restartServer ∧ EvOK (fun _ => True) d w .restartClient :=
+  ⟨rfl, rfl, rfl, rfl, rfl, trivial, trivial⟩
 
 /-! ### totality -/
 
